@@ -504,33 +504,38 @@ fn miri_pass(ctx: &Ctx, out: &mut Outcome) {
 pub fn run(ctx: &Ctx) -> i32 {
     let dir = ctx.scratch_dir("c19");
     let n = ctx.budget(300, 20_000) as u64;
-    // the rounds run in child processes (a deadlock of the workers must be reportable)
-    let mut out = rounds_pass(ctx, n);
+    // the rounds run in child processes (a deadlock of the workers must be reportable); the two
+    // sanitizer passes (their builds included) run next to them
+    let sanitize = std::env::var("VERIF_SKIP_SANITIZERS").is_err();
+    let mut out = std::thread::scope(|sc| {
+        let t = sanitize.then(|| {
+            sc.spawn(|| {
+                let mut o = Outcome::default();
+                tsan_pass(ctx, &mut o);
+                o
+            })
+        });
+        let m = sanitize.then(|| {
+            sc.spawn(|| {
+                let mut o = Outcome::default();
+                miri_pass(ctx, &mut o);
+                o
+            })
+        });
+        let mut out = rounds_pass(ctx, n);
+        for h in [t, m].into_iter().flatten() {
+            if let Ok(o) = h.join() {
+                out.merge(o);
+            }
+        }
+        out
+    });
     match crate::vstore::stress::checker_selftest() {
         Ok(()) => out.info.push("history checker self-test: a new-old inversion between two overlapping writes is rejected, the linearizable variant accepted".into()),
         Err(e) => out.inconclusive.push(format!("history checker self-test failed (harness error): {e}")),
     }
     let _ = std::fs::remove_dir_all(&dir);
-    if std::env::var("VERIF_SKIP_SANITIZERS").is_err() {
-        std::thread::scope(|sc| {
-            let t = sc.spawn(|| {
-                let mut o = Outcome::default();
-                tsan_pass(ctx, &mut o);
-                o
-            });
-            let m = sc.spawn(|| {
-                let mut o = Outcome::default();
-                miri_pass(ctx, &mut o);
-                o
-            });
-            if let Ok(o) = t.join() {
-                out.merge(o);
-            }
-            if let Ok(o) = m.join() {
-                out.merge(o);
-            }
-        });
-    } else {
+    if !sanitize {
         out.inconclusive.push("sanitizer passes skipped (VERIF_SKIP_SANITIZERS set)".into());
     }
     let floors = vec![
